@@ -184,9 +184,30 @@ func c14Retained(c *core.Ctx, t *dyn.TypeOps, ch, l, k int, caseID string, ragge
 					ok = false
 					return
 				}
+				// the sample of a partly filled last frame, for the channels that have one
+				if rem := parent.Len() % ch; cc < rem {
+					pos := ch*full + cc
+					c.Eval(1)
+					c.Obs("samples_of_a_partial_last_frame_addressed_through_views", 1)
+					if got := v.BufferIndex(0, full); got != pos {
+						c.Violate(inst+"|retained-index", caseID, fmt.Sprintf("after %s: view of channel %d reports buffer index %d for index %d (the last, partly filled frame), the parent's position is %d", step, cc, got, full, pos), d)
+						ok = false
+						return
+					}
+					if got, want := v.Sample(full), parent.Sample(pos); !got.Same(want) {
+						c.Violate(inst+"|retained-read", caseID, fmt.Sprintf("after %s: view of channel %d reads %v at index %d (the last, partly filled frame), the parent's sample at position %d is %v", step, cc, got, full, pos, want), d)
+						ok = false
+						return
+					}
+				}
 				for i := 0; i < full; i++ {
 					pos := ch*i + cc
 					c.Eval(1)
+					if got := v.BufferIndex(0, i); got != pos {
+						c.Violate(inst+"|retained-index", caseID, fmt.Sprintf("after %s: view of channel %d reports buffer index %d for index %d, the parent's position is %d", step, cc, got, i, pos), d)
+						ok = false
+						return
+					}
 					if got, want := v.Sample(i), parent.Sample(pos); !got.Same(want) {
 						c.Violate(inst+"|retained-read", caseID, fmt.Sprintf("after %s: view of channel %d taken earlier reads %v at index %d, the parent's sample at position %d is %v", step, cc, got, i, pos, want), d)
 						ok = false
@@ -225,6 +246,9 @@ func c14Retained(c *core.Ctx, t *dyn.TypeOps, ch, l, k int, caseID string, ragge
 	}
 	for i := 0; i < ch+1; i++ {
 		parent.AppendSample(stamp())
+		if i == 0 && !verify("one AppendSample on the parent") {
+			return
+		}
 	}
 	// complete the frame
 	for parent.Len()%ch != 0 && parent.Len() < parent.Cap() {
